@@ -42,6 +42,9 @@ CLAIMED = {
  "C15": ("who-may-write analysis of the baseline measurement + branch-fact minimum discipline + all-paths probe bookkeeping over go/ssa",
          "Static, structural clauses: the no-load baseline of Vegas and Gradient is written only by Add(float64(this sample's rtt)), Reset() or replacement with a fresh measurement; MinimumMeasurement.Add stores exactly the sample and only when unset or lower; every OnSample path leaves the baseline reset, fed this rtt, or established <= rtt; the probe counter advances exactly once per sample when probing is enabled and the probe branch re-arms it from a fresh random draw and resets the baseline on the same path. The numeric recurrence bounds of the resets are not applicable.",
          "5/C15"),
+ "C19": ("all-paths construction/provenance analysis of the pool constructors over go/ssa",
+         "Static, composition only: on every returning path of NewFixedPool the same limit parameter sizes the fixed limit and a precise strategy, the default limiter built from that pair is wrapped by a blocking/queue limiter for every ordering case (none left unset), backlog size and the normalised (non-negative) timeout reach the wrapper; NewPool wraps the caller's delegate on every case; pool Acquire passes the wrapped limiter's results through unchanged. The safety half follows through C01/C02 on the composed stack; the liveness half (every queued caller eventually granted within the timeout) is not applicable to static analysis.",
+         "5/C19"),
 }
 
 PENDING_REASON = "check not built yet in this session; see DESIGN.md section 5 for the planned static obligations"
